@@ -30,11 +30,13 @@ func (interp *Interpreter) FileSet() *token.FileSet {
 
 // Compile parses and compiles a Go code represented as a string.
 func (interp *Interpreter) Compile(src string) (*Program, error) {
+	interp.beginEval(interp.runid())
 	return interp.compileSrc(src, "", true)
 }
 
 // CompilePath parses and compiles a Go code located at the given path.
 func (interp *Interpreter) CompilePath(path string) (*Program, error) {
+	interp.beginEval(interp.runid())
 	if !isFile(interp.filesystem, path) {
 		_, err := interp.importSrc(mainID, path, NoTest)
 		return nil, err
